@@ -55,3 +55,23 @@ def straight_line_geometry(rng, page_w=2000, page_h=1500, min_len=60):
     hu, hd = float(rng.integers(12, 45)), float(rng.integers(5, 20))
     poly = np.concatenate([baseline - [0, hu], (baseline + [0, hd])[::-1]], axis=0)
     return baseline, [hu, hd], poly
+
+
+def same_polygon_shape(a, b, tol=1e-6):
+    """Robust shape equality of two polygons given as point arrays: the boundaries lie within `tol` of each other (Hausdorff
+    distance, vertex-to-segment, independent of start vertex / orientation / closing point) and the areas agree.
+    (GEOS overlay operations such as symmetric_difference are NOT reliable for nearly coincident polygons: observed intersection
+    area 0 for two parallelograms differing by 1e-13.)"""
+    import shapely
+    from shapely.geometry import LinearRing
+    a = np.asarray(a, dtype=np.float64)
+    b = np.asarray(b, dtype=np.float64)
+    if len(a) < 3 or len(b) < 3:
+        return False
+    ra, rb = LinearRing(a), LinearRing(b)
+    if shapely.hausdorff_distance(ra, rb) > tol:
+        return False
+    def area(p):
+        x, y = p[:, 0], p[:, 1]
+        return 0.5 * abs(np.dot(x, np.roll(y, -1)) - np.dot(y, np.roll(x, -1)))
+    return abs(area(a) - area(b)) <= tol * (ra.length + 1.0)
